@@ -34,6 +34,8 @@ Step(r) ==
                            /\ schedAt' = [schedAt EXCEPT ![r.t] = time]
                            /\ expired' = expired \ {r.t}
                            /\ UNCHANGED time
+      [] r.tp = "ext"   -> /\ dl' = [dl EXCEPT ![r.t] = r.d]      \* W!Extend: deadline moved in place, the wheel is not told
+                           /\ UNCHANGED <<time, where, expired, schedAt>>
       [] r.tp = "del"   -> /\ where' = IF r.t \in Timers THEN [where EXCEPT ![r.t] = W!None] ELSE where
                            /\ UNCHANGED <<time, dl, expired, schedAt>>
       [] r.tp = "adv"   -> LET T == r.d
